@@ -699,7 +699,7 @@ def eval_dynamics(ctx, specs, props, with_model=True, c17=False):
     for spec in specs:
         tr, b = sim.simulate(spec)
         traces.append((spec, tr, b))
-        if tr['build_error'] is None and with_model and ctx.driver.available:
+        if tr['build_error'] is None and with_model and ctx.driver.available and not spec.get('long'):
             if sim.uniform_cfg(spec):
                 # declarations -> assembly -> simulation all inside the model
                 lines.append(sim.pipe_line(spec, tr, b))
@@ -1323,6 +1323,37 @@ def run_C16(ctx):
             d = hist_equal(trs, cut, exact=True)
             if d is not None:
                 ctx.violation({'t': 'sim', 'spec': s}, {'why': 'the stopped run is not a prefix of the unstopped run: ' + d})
+    # runs of more than a thousand steps stopped early (judged on the recorded series only; too long for exact rationals)
+    long_specs = []
+    for _ in range(ctx.budget(4, 40)):
+        spec = gen.gen_spec(rng, random_units=rng.random() < 0.5, sl_bias=0.0, currents=None, max_stages=1)
+        spec['load']['coef'] = [abs(spec['load']['coef'][0]), 0.0, 0.0, 0.0, 0.0]
+        spec['rules'] = None
+        dt = 2.0 ** -rng.randint(8, 10)
+        total = rng.randint(1050, 2600)
+        op, _, _ = gen.run_op(rng, dt_si=dt, steps=(total, total), unit=rng.choice(['sec', 'ms']))
+        spec['ops'] = [op]
+        spec['long'] = True
+        tr0, b0 = sim.simulate(spec)
+        if tr0['build_error'] or tr0['error']:
+            continue
+        st = random_stop(rng, spec)
+        if st['sensor'] == 'amp':
+            continue
+        series, _ = sensor_series(spec, tr0, st)
+        k = rng.randint(5, min(len(series) - 2, rng.choice([900, 1900])))
+        lo, hi = sorted((series[k], series[k + 1]))
+        if not lo < hi:
+            continue
+        thr = (lo + hi) / 2
+        # the series is judged as it is: the first crossing of the chosen threshold may come earlier than instant k
+        st['op'] = 'ge' if series[k + 1] > series[k] else 'le'
+        st.pop('kind', None)
+        st['thr'] = gen.in_unit(rng, {'enc': 'AngularPosition', 'tac': 'AngularSpeed'}[st['sensor']], thr, True)
+        op['stop'] = st
+        long_specs.append(spec)
+        ctx.count('run of more than 1000 steps with a stop condition')
+    eval_dynamics(ctx, long_specs, ['C16'], with_model=False)
     ctx.rule = ('encoder / tachometer on any element, amperometer, five operators, thresholds placed between two '
                 'consecutive readings of the unstopped run (inside), below all of them and beyond all of them, in any '
                 'unit; the comparison is re-evaluated on the recorded series and the stopped history is compared with '
@@ -1366,6 +1397,10 @@ def run_C17(ctx):
     n = ctx.budget(70, 5000) * ctx.boost
     for _ in range(n):
         spec = gen.gen_spec(rng, random_units=rng.random() < 0.5, sl_bias=0.3, optional_data=rng.choice([0.3, 0.6, 0.9]))
+        if rng.random() < 0.3:
+            # element names are free text (dots, several words): they name the exported files and the snapshot rows
+            for k, e in enumerate(spec['elems']):
+                e['name'] = rng.choice([f'stage {k // 2 + 1}.{k % 2 + 1}', f'shaft.{k}.out', f'gear {k} (z = {e.get("z", 0)}, v1.{k})'])
         dt = 2.0 ** -rng.randint(3, 6)
         ops = []
         recops = []
@@ -1386,6 +1421,8 @@ def run_C17(ctx):
                      [q for q in spec['rels'][k + 1:] if q[0] in ('gear', 'worm') and (set(q[1:3]) & set(r[1:3]))]]
             if cands:
                 ops.insert(rng.randrange(1, len(ops)), {'op': 'redeclare', 'rel': list(rng.choice(cands))})
+        if len(ops) >= 2 and rng.random() < 0.25:
+            ops.insert(rng.randrange(1, len(ops) + 1), {'op': 'wrap'})
         spec['ops'] = ops
         if rng.random() < 0.5:
             # with a controller (for all runs, or only for some of them)
